@@ -167,6 +167,11 @@ func c05Ownership(r *an.Run) {
 		}
 		rel := strings.TrimPrefix(strings.TrimPrefix(an.FuncPkgPath(w.fn), an.Module), "/")
 		why, ok := allowedAstWrites[rel][w.field]
+		if !ok && w.field == "CommentGroup.List" && inCleanup(r, w.fn) {
+			// the clean-up step may live in a package of its own, shared by the
+			// command and the library: it is identified by its role, not its package
+			why, ok = allowedAstWrites[""][w.field], true
+		}
 		key := rel + "|writes|" + w.field
 		if ok {
 			if !seen[key] {
